@@ -405,6 +405,9 @@ Program genC01(Rand& R, int tier)
 Program generate(const std::string& p, Rand& R, int tier)
 {
     if (p == "C01") return genC01(R, tier);
+    if (p == "C13") return genC13(R, tier);
+    if (p == "C14") return genC14(R, tier);
+    if (p == "C15") return genC15(R, tier);
     if (p == "C08") return genC08(R, tier);
     if (p == "C09") return genC09(R, tier);
     if (p == "C20") return genC20(R, tier);
@@ -423,6 +426,9 @@ Program generate(const std::string& p, Rand& R, int tier)
 
 bool nontrivialRule(const std::string& p, const Labels& L)
 {
+    if (p == "C13") return L.has("reorder_nonidentity") && L.has("reorder_2held_edges");
+    if (p == "C14") return L.has("op.read") && L.has("write_2roots") && (L.has("write_terminal_root") || L.has("write_repeated_root"));
+    if (p == "C15") return L.has("indexset_proper");
     if (p == "C08") return L.has("reach_2_iterations") && L.get("op.reach") >= 2;
     if (p == "C09") return (L.has("op.image") && L.has("nonconstant_result")) || L.has("vm_nonconstant_vector");
     if (p == "C20") return L.has("pregen_2events") && L.has("reach_2_iterations");
@@ -441,6 +447,9 @@ bool nontrivialRule(const std::string& p, const Labels& L)
 
 const char* ruleText(const std::string& p)
 {
+    if (p == "C13") return "MT set/relation (bool/int/real) and EV+ set forests with a random scheduling heuristic (8) and swap method (2); 2-5 held edges sharing nodes, a second forest over the same domain, warm compute tables; reorderVariables() to a uniformly random permutation, more operations, optionally back to the default order; every held edge is re-evaluated against its table under the new order (evaluate + own expansion), the forest is audited, other forests' orders and edges must be unchanged; non-trivial = a non-identity reordering with >= 2 held edges; distinct = distinct program text";
+    if (p == "C14") return "0-8 root edges (shared sub-graphs, terminal roots, repeated roots) of a forest of any kind and policy written with mdd_writer to an in-memory stream and read back into the same forest, into another forest of the same kind with other policies (already holding nodes), or into a forest created from the file; same number and order of roots, tables equal (tolerance for reals), identical edges when read into the writing forest, audit and exact reference recount of the receiving forest afterwards; non-trivial = a read of >= 2 roots including a terminal or repeated root; distinct = distinct program text";
+    if (p == "C15") return "random boolean sets (incl. empty and full) in fully-/quasi-reduced forests converted to index sets; the result must map the members in lexicographic order to 0..n-1 and everything else to +infinity (evaluate + own expansion), getElement(i) must return member i for 0<=i<n and false for -1, n, n+5, and the cardinality stored in every node must equal the members below it; non-trivial = 2 <= n < |domain|; distinct = distinct program text";
     if (p == "C08") return "random transition relations built as unions of 1-6 events (guards, self-loops, dead ends, nondeterminism, untouched variables as identity patterns) in a boolean relation forest of a random reduction rule; 1-4 initial states in a boolean / MT-int-distance / EV+-distance set forest; every offered algorithm (frontier BFS, BFS, saturation), forward and backward, several successive calls with new relations / initial sets in the same forests; results compared pointwise with an explicit BFS (reachable set and shortest distances), and results of different algorithms in one forest must be the identical edge; non-trivial = the closure needs >= 2 steps and >= 2 reachability calls ran; distinct = distinct program text";
     if (p == "C09") return "post/pre-images of boolean / MT-int-distance / EV+-distance sets under event-built and arbitrary relations of every reduction rule, compared with the explicit neighbour definition (1 + min distance, unreachable where there is none); vector-matrix and matrix-vector products of random int/real vectors and matrices compared with the explicit sum of products; non-trivial = an image with a non-constant result or a product with a non-constant vector; distinct = distinct program text";
     if (p == "C20") return "1-8 random events kept as a list, fed to partitioned saturation by events and by levels with every splitting option, compared pointwise with the explicit closure under the union of the events and (edge identity) with the monolithic reachability result in the same forest; non-trivial = >= 2 events and a closure of >= 2 steps; distinct = distinct program text";
